@@ -133,6 +133,13 @@ def gen_cs(rng, kind, cid, p, L, on_axis=False):
     O = rng.uniform(-1, 1, 3) * L
     if on_axis:
         O = p - A[:, 2] * rng.uniform(0.2, 1.0) * L  # the grid sits on the polar axis
+    elif kind in (2, 3) and rng.random() < 0.35:
+        # the grid sits at an azimuth of exactly 0, 90, 180 or 270 degrees of its own (tilted, offset) output system
+        # - a bolt ring - so that one local component is round-off noise only
+        cx, sx = [(1.0, 0.0), (0.0, 1.0), (-1.0, 0.0), (0.0, -1.0)][int(rng.integers(0, 4))]
+        r = rng.uniform(0.3, 1.0) * L
+        z = rng.uniform(-0.5, 0.5) * L if (kind == 2 or rng.random() < 0.7) else 0.0
+        O = p - A @ np.array([r * cx, r * sx, z])
     else:
         l = A.T @ (p - O)
         if kind in (2, 3) and math.hypot(l[0], l[1]) < 0.05 * L:
